@@ -697,10 +697,13 @@ class ThreadsSim(Simulator):
         return int(os.environ.get("VERIF_C13_SECONDS", "900"))
 
     def rule(self, prop):
-        return ("one run = seeded workload (2-4 roots, setup ops, 1-4 client threads with 3-40 API calls on shared "
-                "wallet/node/generator objects, teardown re-observation) executed under the baton scheduler with a "
-                "seeded pre-emption policy; every observation is compared with the same request on fresh objects in a "
-                "freshly forked history-free child. A run is non-trivial if at least one context switch happened and "
+        return ("one run = seeded workload (2-4 roots out of ten: full wallets, watch-only and PRIVATE extended-key imports "
+                "of nodes that are also derived nodes of another root; setup ops; 1-4 client threads with 3-40 API calls "
+                "on shared wallet/node/generator objects incl. new wallet objects built mid-history; teardown "
+                "re-observation) executed under the baton scheduler with a seeded pre-emption policy (Bernoulli, "
+                "conflict-biased, sparse, site-uniform atomicity tests, operation-granular, or none for the single-client "
+                "history batch) at line or instruction granularity; every observation is compared with the same request "
+                "on fresh objects in a freshly forked history-free child. A run is non-trivial if at least one context switch happened and "
                 "at least one handle was used by two clients (multi-client), or >=4 operations shared objects "
                 "(single client); distinct = distinct digest over all (query, observation) records and the schedule log.")
 
@@ -739,8 +742,9 @@ class ThreadsSim(Simulator):
                 "CPython threads (threading.Thread)", "hashlib / PBKDF2", "json"]
 
     def stub_components(self, prop):
-        return ["thread choice: baton scheduler decides at every sys.settrace line/opcode event in the package's "
-                "own files which thread runs next", "oracle process: fresh fork of the zygote per distinct query"]
+        return ["thread choice: baton scheduler decides at every sys.monitoring LINE/INSTRUCTION event in the package's "
+                "own code objects which thread runs next (real threads, parked and released one at a time)",
+                "oracle process: fresh fork of the zygote per distinct query"]
 
     def assumptions(self, prop):
         return ["pre-emption only at line/opcode events inside btc_hd_wallet's own files (never inside ecdsa, hashlib, json)",
